@@ -16,7 +16,7 @@ def run(tier, seed, replay=None):
     ck = vlib.Check(PROP, tier, seed)
     ob = vlib.lean_obligations(PROP, thorough=(tier == "thorough"))
     if not ob.get("driver_ok", True):
-        return ck.finish(ob, rule="-")
+        return ck.finish(ob, rule="potential_shift: one table in three is an already shifted one or holds whole numbers written without a decimal point. -")
     py = sys.executable
 
     def ids(text, name):
